@@ -1455,11 +1455,16 @@ func (f *formatter) ExprVariable(n *ast.ExprVariable) {
 		n.DollarTkn = f.newToken('$', []byte("$"))
 	}
 
+	braces := n.OpenCurlyBracketTkn != nil
 	n.OpenCurlyBracketTkn = nil
 	n.CloseCurlyBracketTkn = nil
 	switch n.Name.(type) {
 	case *ast.Identifier:
 	case *ast.ExprVariable:
+		if braces {
+			n.OpenCurlyBracketTkn = f.newToken('{', []byte("{"))
+			n.CloseCurlyBracketTkn = f.newToken('}', []byte("}"))
+		}
 	default:
 		n.OpenCurlyBracketTkn = f.newToken('{', []byte("{"))
 		n.CloseCurlyBracketTkn = f.newToken('}', []byte("}"))
